@@ -86,8 +86,13 @@ func ctlHelper() int {
 			s = append(s, "exit", "0")
 		}
 		// (with a sync callback: one more announced point, at which the child is parked on the sync socket)
-		kRunPtrace(context.Background(), &kOpts{script: s, filter: kFilterAllowAllBut([]string{"getppid"}, nil), handler: &recHandler{},
-			syncFunc: func(pid int) error { ctlAnnounce("pt sync"); return nil }})
+		var sync func(int) error
+		if scenario == "tracer" {
+			// (not in the gate scenario: there the child must get past the launch without a parent to talk to,
+			// which the sync socket would end at once)
+			sync = func(pid int) error { ctlAnnounce("pt sync"); return nil }
+		}
+		kRunPtrace(context.Background(), &kOpts{script: s, filter: kFilterAllowAllBut([]string{"getppid"}, nil), handler: &recHandler{}, syncFunc: sync})
 		ctlAnnounce("pt done")
 	default:
 		n := 0
